@@ -259,9 +259,25 @@ def run(chk):
     # ---- correspondence B: compiled PRINT statements, all six configurations
     meta_all = []
 
+    # item lists at the edges of the protocol: empty strings (as literals) first, last, alone, between separators
+    E = ('v', 'STRING', '')
+    A = ('v', 'STRING', 'ab')
+    N7 = ('v', 'INTEGER', 7)
+    EDGE = [[A, (';',), E], [N7, (',',), E], [(';',), E], [A, (';',), (';',), E, (';',), E], [E], [E, (';',)], [E, (',',), E], [E, (';',), A],
+            [A, (',',), E, (',',), N7], [E, (';',), E, (';',), E], [N7, (';',), E, (';',)], [(',',), (',',), E], [A, (';',), E, (',',)],
+            [E, (';',), N7], [N7, (';',), E, (';',), N7]]
+    edge_done = []
+
     def compiled_round(n, literal_bias):
         tasks = []
         tries = 0
+        if not edge_done:
+            edge_done.append(1)
+            for items in EDGE:
+                for _ in range(2):
+                    src = program_for(rng, items, 1.0)
+                    if src is not None:
+                        tasks.append((src, items))
         while len(tasks) < n and tries < n * 20:
             tries += 1
             items = gen_items_dense(rng) if literal_bias > 0.5 and rng.random() < 0.7 else gen_items(rng, 6)
